@@ -347,9 +347,9 @@ func (s *State) evalInternal(node any) object.Object { //nolint:funlen,gocognit,
 
 func (s *State) evalPipe(left object.Object, right ast.Node) object.Object {
 	s.PipeVal = []byte(left.(object.String).Value)
-	res := s.evalInternal(right)
-	s.PipeVal = nil
-	return res
+	// Also when a panic unwinds through here: the value must not reach an exec() of a later input.
+	defer func() { s.PipeVal = nil }()
+	return s.evalInternal(right)
 }
 
 func (s *State) evalIndexExpression(left object.Object, node *ast.IndexExpression) object.Object {
